@@ -422,7 +422,7 @@ class C17(Prop):
         need = set()
         for l in lines:
             t = l.split()
-            if t and t[0] in ("reload", "reloadp", "restart", "bindump"):
+            if t and t[0] in ("reload", "reloadp", "reloadf", "restart", "bindump"):
                 need |= set(x + ".c" for x in t[1:] if x != "|")
         seen = set()
         while need:
